@@ -416,8 +416,62 @@ pub fn run(sink: &mut Sink, rng: &mut Rng, thorough: bool) {
   }
 }
 
+/// JSON documents with deliberate overlaps (a cell and one of its descendants at ANY sub-position, duplicates,
+/// two descendants of one ancestor) next to valid ones: the real JSON reader must give the verdict and the value
+/// the model gives on the same token stream (JSON text reduced to the ASCII token syntax).
+fn json_overlaps(sink: &mut Sink, rng: &mut Rng, thorough: bool) {
+  macro_rules! one {
+    ($T:ty, $Q:ident, $q:expr, $w:expr) => {{
+      let md = (<$Q<$T> as MocQty<$T>>::MAX_DEPTH as u64).min(4);
+      for _ in 0..(if thorough { 3000 } else { 250 }) {
+        let mut cells: Vec<(u8, u64)> = Vec::new();
+        let d0 = rng.below(md) as u8;
+        let n0 = n_cells::<$T, $Q<$T>>(d0);
+        let i0 = rng.below(n0);
+        cells.push((d0, i0));
+        for _ in 0..rng.below(4) {
+          let dim = if $q == "hpx" { 2u32 } else { 1u32 };
+          match rng.below(5) {
+            0 => cells.push((d0, i0)), // duplicate
+            1 | 2 => {
+              // a descendant of the first cell, at any sub-position
+              let dd = 1 + rng.below(md - d0 as u64 + 1).min(3) as u8;
+              if d0 + dd <= <$Q<$T> as MocQty<$T>>::MAX_DEPTH {
+                let sub = rng.below(1u64 << (dim * dd as u32));
+                cells.push((d0 + dd, (i0 << (dim * dd as u32)) + sub));
+              }
+            }
+            3 => { let d = rng.below(md + 1) as u8; cells.push((d, rng.below(n_cells::<$T, $Q<$T>>(d)))); }
+            _ => { let j = (i0 + 1 + rng.below(3)) % n0; cells.push((d0, j)); } // a sibling / neighbour (valid unless equal)
+          }
+        }
+        rng.shuffle(&mut cells);
+        let mut by_depth: std::collections::BTreeMap<u8, Vec<u64>> = Default::default();
+        for (d, i) in &cells { by_depth.entry(*d).or_default().push(*i); }
+        let j = format!("{{{}}}", by_depth.iter().map(|(d, v)| format!("\"{}\":[{}]", d, v.iter().map(|x| x.to_string()).collect::<Vec<_>>().join(","))).collect::<Vec<_>>().join(","));
+        let ans = guarded(AssertUnwindSafe(|| match from_json_aladin::<$T, $Q<$T>>(&j) {
+          Ok(c) => {
+            let dd = c.depth_max();
+            let r: RangeMOC<$T, $Q<$T>> = c.into_cell_moc_iter().ranges().into_range_moc();
+            format!("ok {}|{}", dd, fmt_ranges(&moc_ranges_u64(&r)))
+          }
+          Err(_) => "err".to_string(),
+        }));
+        let norm: String = j.chars().filter_map(|c| match c { '{' | '}' | '[' | ']' | '"' => None, ':' => Some('/'), ',' => Some(' '), c => Some(c) }).collect();
+        sink.count(&format!("json-overlap-doc:{}", ans.split(' ').next().unwrap_or("?")));
+        sink.emit(&format!("ascii_dec {} {} {}", $q, $w, hex(norm.as_bytes())), &ans, true);
+      }
+    }};
+  }
+  one!(u64, Hpx, "hpx", 64);
+  one!(u32, Hpx, "hpx", 32);
+  one!(u64, Time, "time", 64);
+  one!(u16, Frequency, "freq", 16);
+}
+
 pub fn run_c12(sink: &mut Sink, rng: &mut Rng, thorough: bool) {
   all(sink, rng, thorough, true);
+  json_overlaps(sink, rng, thorough);
   other_readers(sink, rng, thorough);
   // random bytes
   for _ in 0..(if thorough { 20000 } else { 500 }) {
